@@ -30,6 +30,8 @@ dictionaries it is given (the Rst object clears its own in place).
 SANITIZE / SAN-BODY (shared with C19) - the report root
 directory is derived from the sanitized task name and the sanitizer is
 identity-or-raise.
+PAGE-SUFFIX - the '.rst' extension is appended to the page name, never
+substituted with with_suffix / splitext / .stem (titles contain dots).
 FIG-ALL - both figure-writing branches of FormattedRst.write (sequential
 loop, Pool.map) range over the full list built from self.plots, and a
 chunksize, if given, is provably >= 1. HEADER-DEPTH - every header is asked
@@ -53,6 +55,7 @@ def check(ctx):
     ctx.run(reportfs.check_fig_all)
     ctx.run(reportfs.check_header_depth)
     ctx.run(reportfs.check_clear_complete)
+    ctx.run(reportfs.check_page_suffix)
     ctx.run(extcmd.check_sanitize, scope=('report-root',), floor=1)
     ctx.run(extcmd.check_sanitizer_body)
 
@@ -303,5 +306,18 @@ def variants(program):
     add('seed-result-headers-one-level-below-the-section', 'mutant',
         result_headers, {'HEADER-DEPTH'},
         note='a result in a fifth-level section makes format_report raise')
+
+    def page_with_suffix(tree):
+        # seed C20-r3-1
+        fun = find_func(tree, 'FormattedRst._write_rec')
+        return replace_first(
+            fun, lambda n: isinstance(n, ast.Call) and call_name(n) ==
+            'with_name',
+            lambda n: ast.Call(func=ast.Attribute(
+                value=n.func.value, attr='with_suffix', ctx=ast.Load()),
+                args=[ast.Constant(value='.rst')], keywords=[]))
+    add('seed-page-extension-substituted-with-with-suffix', 'mutant',
+        page_with_suffix, {'PAGE-SUFFIX'},
+        note="'Fe56, 0.1 MeV' and 'Fe56, 0.5 MeV' -> 'Fe56, 0.rst'")
 
     return out
